@@ -109,6 +109,7 @@ def check(ctx):
     d1_docs(ctx, idx, env)
     d1_merge(ctx, idx, env)
     d2_definitions(ctx, idx, env)
+    d2_factorial(ctx, idx, env)
     d3_constants(ctx, idx, env)
     d4_domains(ctx, idx, env)
     d4_decorator(ctx, idx, env)
@@ -750,6 +751,189 @@ def _cross_component(expr, a, b, j, k):
     if isinstance(expr.op, ast.Sub) and f1 == want1 and f2 == want2:
         return nf.MATCH
     return ('DIFF', 'expected %s[%d]*%s[%d] - %s[%d]*%s[%d], found `%s`' % (a, j, b, k, a, k, b, j, unparse(expr)))
+
+
+def d2_factorial(ctx, idx, env):
+    """fact / factorial: Gamma(z + 1) with the documented refusal of negative integers (scipy is not imported: only the
+    structure of the definition is decided, the numerical values of gamma are NOT)."""
+    r = ctx.rule('D2.FACTORIAL', 'factorial(z) is gamma(z + 1), refuses negative integers with a student-facing error and tests '
+                                 'integrality without failing on complex or numpy arguments', floor=6)
+    with r:
+        fi = idx.func(MFQ + '.factorial')
+        mod = fi.module
+        fn = fi.node
+        if len(fi.params) != 1:
+            raise AnalysisError('factorial: expected one parameter')
+        z = fi.params[0]
+        b = {'_Z': ast.Name(id=z, ctx=ast.Load())}
+        # (1) every name that is read is bound (a deleted assignment shows up as a name that is never assigned)
+        from ..index import local_names as _ln
+        bound = set(_ln(fn))
+        unbound = sorted({n.id for n in walk_own(fn) if isinstance(n, ast.Name) and isinstance(n.ctx, ast.Load)
+                          and n.id not in bound and idx.resolve_name(mod, n.id)[0] == 'external'})
+        r.check(not unbound, 'mathfuncs.factorial [names]', 'every name read is assigned, imported or global',
+                'the name(s) %s are read but never assigned in factorial: every call ends in NameError (reported to the student as a '
+                'domain error)' % unbound, fi.loc)
+        # (2) the gamma call
+        local_imports = {}
+        for n in walk_own(fn):
+            if isinstance(n, ast.Import):
+                for al in n.names:
+                    local_imports[al.asname or al.name.split('.')[0]] = al.name
+            elif isinstance(n, ast.ImportFrom) and n.module:
+                for al in n.names:
+                    local_imports[al.asname or al.name] = n.module + '.' + al.name
+        gcalls = []
+        for c in walk_own(fn):
+            if isinstance(c, ast.Call):
+                d = None
+                if isinstance(c.func, ast.Attribute) and isinstance(c.func.value, ast.Name):
+                    base = local_imports.get(c.func.value.id) or mod.imports.get(c.func.value.id)
+                    d = (base + '.' + c.func.attr) if base else None
+                elif isinstance(c.func, ast.Name):
+                    d = local_imports.get(c.func.id) or mod.imports.get(c.func.id)
+                if d in ('scipy.special.gamma', 'math.gamma', 'scipy.special.factorial'):
+                    gcalls.append((c, d))
+        if len(gcalls) != 1:
+            _absent(r, idx, fi, 'mathfuncs.factorial [gamma]', 'no call of scipy.special.gamma found (found %d)' % len(gcalls), fi.loc)
+        else:
+            c, d = gcalls[0]
+            want = '_Z + 1' if d.endswith('gamma') else '_Z'
+            res = nf.classify(want, c.args[0], dict(b)) if len(c.args) == 1 else nf.UNRECOGNISED
+            if res == nf.MATCH:
+                r.ok('mathfuncs.factorial [gamma]', '%s(%s)' % (d, want.replace('_Z', z)), lib.loc(fi, c))
+            elif isinstance(res, tuple):
+                r.violation('mathfuncs.factorial [gamma]', 'factorial(z) is no longer Gamma(z + 1): %s (e.g. factorial(4) is not 24 any more)'
+                            % res[1], lib.loc(fi, c), expected='gamma(%s + 1)' % z, found=short(c))
+            else:
+                r.undecided('mathfuncs.factorial [gamma]', 'argument of gamma not recognised: %s' % short(c), lib.loc(fi, c))
+            # the value returned derives from the gamma call
+            holder = None
+            st = lib.enclosing_stmt(c)
+            if isinstance(st, ast.Assign) and len(st.targets) == 1 and isinstance(st.targets[0], ast.Name) and st.value is c:
+                holder = st.targets[0].id
+            rets = lib.returns_of(fn)
+            ok_rets = bool(rets)
+            for rt in rets:
+                v = rt.value
+                names = lib.names_in(v) if v is not None else set()
+                direct = v is not None and any(x is c for x in ast.walk(v))
+                if not (direct or (holder is not None and holder in names)):
+                    ok_rets = False
+            r.check(ok_rets, 'mathfuncs.factorial [result]', 'every return hands back the gamma value (as a number when it is 0-d)',
+                    'a return of factorial does not derive from the gamma value', fi.loc)
+        # (3) integrality test: isinstance(z, int) or z.is_integer(), AttributeError -> False
+        flag = None
+        tested = None
+        for t in lib.stmts_in(fn, ast.Try):
+            for s_ in t.body:
+                if isinstance(s_, ast.Assign) and len(s_.targets) == 1 and isinstance(s_.targets[0], ast.Name) and \
+                        any(isinstance(x, ast.Call) and nf.callee_name(x) == 'is_integer' for x in ast.walk(s_.value)):
+                    flag, tested, tr = s_.targets[0].id, s_, t
+        helper_mode = None
+        if flag is None:
+            # the integrality test may live in a helper: isinstance(p, int) -> True; try: return p.is_integer() except AttributeError: False
+            for h in _private_callees(idx, fi):
+                if len(h.params) != 1:
+                    continue
+                hp = h.params[0]
+                isint = any(isinstance(n, ast.If) and nf.classify('isinstance(%s, int)' % hp, n.test) == nf.MATCH and any(
+                    isinstance(x, ast.Return) and nf.const_value(x.value, 0) is True for x in n.body) for n in walk_own(h.node)) or any(
+                    isinstance(n, ast.BoolOp) and isinstance(n.op, ast.Or) and any(nf.classify('isinstance(%s, int)' % hp, v_) == nf.MATCH
+                                                                                  for v_ in n.values) for n in walk_own(h.node))
+                trys = [t for t in lib.stmts_in(h.node, ast.Try)
+                        if any(isinstance(x, ast.Call) and nf.callee_name(x) == 'is_integer' for s_ in t.body for x in ast.walk(s_))]
+                if not (isint and len(trys) == 1):
+                    continue
+                hv = [x.value for hd in trys[0].handlers if 'AttributeError' in lib.handler_class_names(hd) or 'Exception' in lib.handler_class_names(hd)
+                      for s_ in hd.body for x in ast.walk(s_) if isinstance(x, ast.Return)]
+                if len(hv) == 1 and nf.const_value(hv[0], 'x') is False:
+                    helper_mode = h
+                elif len(hv) == 1 and nf.const_value(hv[0], 'x') is True:
+                    r.violation('mathfuncs.factorial [no is_integer]', 'arguments without an is_integer method (complex numbers, arrays) are '
+                                'treated as integers in %s' % h.name, lib.loc(h, hv[0]), expected='return False')
+                    helper_mode = h
+        if flag is None and helper_mode is not None:
+            r.ok('mathfuncs.factorial [integrality]', 'isinstance(z, int) or z.is_integer() (in %s)' % helper_mode.name, helper_mode.loc)
+            r.ok('mathfuncs.factorial [no is_integer]', 'AttributeError -> not an integer (in %s)' % helper_mode.name, helper_mode.loc)
+            sites = [x for x in lib.raises_of(fn) if x.exc is not None and lib.in_handler(x) is None and guards_of(x, fn)]
+            if not sites:
+                _absent(r, idx, fi, 'mathfuncs.factorial [negative integers]', 'factorial no longer refuses negative integers', fi.loc)
+            else:
+                x = sites[-1]
+                gs = [lib.inline_locals(g, fn) for g in guards_of(x, fn)]
+                conj = gs[0] if len(gs) == 1 else ast.BoolOp(op=ast.And(), values=list(gs))
+                res = nf.classify('%s(_Z) and _Z < 0' % helper_mode.name, conj, dict(b))
+                cls = nf.exc_class_name(x.exc)
+                if res == nf.MATCH:
+                    r.check(lib.exc_is_subclass(idx, mod, cls, 'StudentFacingError'), 'mathfuncs.factorial [negative integers]',
+                            'raises %s when z is a negative integer' % cls,
+                            'negative integers are refused with %s, which is not a student-facing error' % cls, lib.loc(fi, x))
+                elif isinstance(res, tuple):
+                    r.violation('mathfuncs.factorial [negative integers]', 'the refusal condition of factorial changed: %s' % res[1],
+                                lib.loc(fi, x), expected='is_integer and %s < 0' % z, found=short(conj))
+                else:
+                    r.undecided('mathfuncs.factorial [negative integers]', 'condition not recognised: %s' % short(conj), lib.loc(fi, x))
+        elif flag is None:
+            _absent(r, idx, fi, 'mathfuncs.factorial [integrality]', 'no `is_integer` test inside a try found', fi.loc)
+        else:
+            res = nf.classify(['isinstance(_Z, int) or _Z.is_integer()', 'isinstance(_Z, numbers.Integral) or _Z.is_integer()',
+                               'isinstance(_Z, (int, np.integer)) or _Z.is_integer()'], tested.value, dict(b))
+            if res == nf.MATCH:
+                r.ok('mathfuncs.factorial [integrality]', 'isinstance(z, int) or z.is_integer()', lib.loc(fi, tested))
+            elif isinstance(res, tuple):
+                r.violation('mathfuncs.factorial [integrality]', 'the integrality test of factorial changed: %s -- %s' % (
+                    res[1], 'isinstance(int, z) raises TypeError for every argument, which eval_function reports as a domain error'
+                    if 'swapped' in res[1] else 'negative integers are no longer (or other values are wrongly) recognised'),
+                    lib.loc(fi, tested), expected='isinstance(z, int) or z.is_integer()', found=short(tested.value))
+            else:
+                r.undecided('mathfuncs.factorial [integrality]', 'not recognised: %s' % short(tested.value), lib.loc(fi, tested))
+            hs = [h for h in tr.handlers if 'AttributeError' in lib.handler_class_names(h) or 'Exception' in lib.handler_class_names(h)]
+            hv = None
+            for h in hs:
+                for s_ in h.body:
+                    if isinstance(s_, ast.Assign) and isinstance(s_.targets[0], ast.Name) and s_.targets[0].id == flag:
+                        hv = s_.value
+            if hv is None:
+                _absent(r, idx, fi, 'mathfuncs.factorial [no is_integer]', 'arguments without an is_integer method (complex numbers, '
+                        'arrays) are not given an integrality value in an `except AttributeError` handler', lib.loc(fi, tr))
+            else:
+                val = nf.const_value(hv, 'x')
+                if val is False:
+                    r.ok('mathfuncs.factorial [no is_integer]', 'complex numbers / arrays count as non-integers', lib.loc(fi, hv))
+                elif val is True:
+                    r.violation('mathfuncs.factorial [no is_integer]', 'arguments without an is_integer method (complex numbers, arrays) '
+                                'are treated as integers: the sign test `z < 0` is then applied to a complex number (TypeError) or an '
+                                'array, and factorial(3.2+4.1j) fails although the documentation gives its value', lib.loc(fi, hv),
+                                expected='%s = False' % flag, found=short(hv))
+                else:
+                    r.undecided('mathfuncs.factorial [no is_integer]', 'value not a boolean literal: %s' % short(hv), lib.loc(fi, hv))
+            # (4) refusal of negative integers
+            sites = [x for x in lib.raises_of(fn) if x.exc is not None and lib.in_handler(x) is None]
+            refusal = None
+            for x in sites:
+                gs = guards_of(x, fn)
+                if gs:
+                    refusal = (x, gs)
+            if refusal is None:
+                _absent(r, idx, fi, 'mathfuncs.factorial [negative integers]', 'factorial no longer refuses negative integers: gamma has '
+                        'poles there and returns inf/nan instead of the documented error', fi.loc,
+                        expected='if is_integer and z < 0: raise FunctionEvalError')
+            else:
+                x, gs = refusal
+                conj = gs[0] if len(gs) == 1 else ast.BoolOp(op=ast.And(), values=list(gs))
+                res = nf.classify('%s and _Z < 0' % flag, conj, dict(b))
+                cls = nf.exc_class_name(x.exc)
+                if res == nf.MATCH:
+                    r.check(lib.exc_is_subclass(idx, mod, cls, 'StudentFacingError'), 'mathfuncs.factorial [negative integers]',
+                            'raises %s when z is a negative integer' % cls,
+                            'negative integers are refused with %s, which is not a student-facing error' % cls, lib.loc(fi, x))
+                elif isinstance(res, tuple):
+                    r.violation('mathfuncs.factorial [negative integers]', 'the refusal condition of factorial changed: %s -- the documented '
+                                'domain is "all complex numbers except negative integers"' % res[1], lib.loc(fi, x),
+                                expected='%s and %s < 0' % (flag, z), found=short(conj))
+                else:
+                    r.undecided('mathfuncs.factorial [negative integers]', 'condition not recognised: %s' % short(conj), lib.loc(fi, x))
 
 
 # ----------------------------------------------------------------------------- D3
@@ -1581,6 +1765,14 @@ MUTANTS = [
     Mutant('real-keeps-0d-array', MF, "    return content_if_0d_array(np.real(z))", "    return np.real(z)", 'D2'),
     Mutant('constants-by-dict-zip-misaligned', MF, "DEFAULT_VARIABLES = {\n    'i': complex(0, 1),\n    'j': complex(0, 1),\n    'e': np.e,\n    'pi': np.pi\n}",
            "DEFAULT_VARIABLES = dict(zip(('i', 'j', 'pi', 'e'), (complex(0, 1), complex(0, 1), np.e, np.pi)))", 'D3'),
+    Mutant('factorial-isinstance-swapped', MF, "        is_integer = isinstance(z, int) or z.is_integer()", "        is_integer = isinstance(int, z) or z.is_integer()", 'D2'),
+    Mutant('factorial-complex-counts-as-integer', MF, "    except AttributeError:\n        is_integer = False", "    except AttributeError:\n        is_integer = True", 'D2'),
+    Mutant('factorial-refusal-or', MF, "    if is_integer and z < 0:", "    if is_integer or z < 0:", 'D2'),
+    Mutant('factorial-refusal-sign', MF, "    if is_integer and z < 0:", "    if is_integer and z > 0:", 'D2'),
+    Mutant('factorial-refuses-zero', MF, "    if is_integer and z < 0:", "    if is_integer and z <= 0:", 'D2'),
+    Mutant('factorial-gamma-argument', MF, "    value = special.gamma(z+1)", "    value = special.gamma(z-1)", 'D2'),
+    Mutant('factorial-gamma-call-deleted', MF, "    value = special.gamma(z+1)\n", "", 'D2'),
+    Mutant('factorial-refusal-removed', MF, "        raise FunctionEvalError(msg)\n\n    # lazy import this module for performance reasons", "        pass\n\n    # lazy import this module for performance reasons", 'D2'),
     Mutant('constant-e', MF, "    'e': np.e,", "    'e': 2.71,", 'D3'),
     Mutant('constant-pi', MF, "    'pi': np.pi\n", "    'pi': 3.14159\n", 'D3'),
     Mutant('constant-i', MF, "    'i': complex(0, 1),", "    'i': complex(1, 0),", 'D3'),
@@ -1663,5 +1855,6 @@ BENIGN = [
     Benign('decorator-variable-length-flag', SD,
            "        # can't use @wraps, func might be a numpy ufunc\n        def decorator(func):\n            func_name = display_name if display_name else func.__name__\n\n            @wraps(func)\n            def _func(*args):\n                # Set up the schemas and shapes for validation.\n                # Also check the number of arguments provided is correct.\n                # Use the same response as in validate_function_call in expressions.py\n                msg = ''\n                if min_length is not None:",
            "        variable_length = min_length is not None\n\n        def decorator(func):\n            func_name = display_name if display_name else func.__name__\n\n            @wraps(func)\n            def _func(*args):\n                msg = ''\n                if variable_length:"),
+    Benign('factorial-gamma-inline', MF, "    value = special.gamma(z+1)\n", "    value = special.gamma(1 + z)\n"),
     Benign('kronecker-else', MF, "    if x == y:\n        return 1\n    return 0", "    if x != y:\n        return 0\n    else:\n        return 1"),
 ]
